@@ -36,11 +36,11 @@ Print size_tag_table.
 
 (* the LogOp rows regenerated from consensus/raft/log_op.go: the encodable fields must be TagCtx, Cid, Type (in that order, as
    logop_val lays them out) with distinct keys and known types; every field left undescribed (the span context) must be
-   `omitempty`; the Pin rows must be in the order pin_to_val uses *)
+   `omitempty`; the Pin rows must be exactly the fifteen fields pin_to_val lays out (in any order) *)
 Definition diag_raft_logop_table_wellformed := Eval vm_compute in
   (if list_eqb String.eqb (map f_go raft_logop_fields) ["TagCtx"; "Cid"; "Type"] then [] else "<LogOp fields>" :: map f_go raft_logop_fields)
   ++ map fst (filter (fun e : string * bool => negb (snd e)) raft_logop_opaque)
   ++ (if struct_ok Msgpack raft_schema raft_logop_fields then [] else ["<LogOp keys / types>"])
-  ++ (if pin_layout_ok then [] else ["<Pin field order>"])
+  ++ (if pin_layout_ok then [] else ["<Pin fields: not exactly the fifteen the model lays out>"])
   ++ (if snodup (map fst raft_schema) then [] else ["<LogOp is also a struct of the api table>"]).
 Print diag_raft_logop_table_wellformed.
